@@ -3,9 +3,11 @@
 #   1. the patch applies to /repo HEAD and the tree builds;
 #   2. the repository's interp test suite passes exactly as the baseline says;
 #   3. the demonstration fails with the patch and passes without it.
-# usage: confirm_seeded.sh <dir with patch.diff + demo> <test-run-regexp | "main">
+# usage: confirm_seeded.sh <dir with patch.diff + demo> <test-run-regexp | "main"> [race]
+#        (race: the demonstration is run with the race detector, the only thing that tells
+#         some changes apart)
 set -u
-SRC=$1; RUN=$2
+SRC=$1; RUN=$2; RACE=""; [ "${3:-}" = race ] && RACE="-race"
 WT=$(mktemp -d /tmp/verif-confirm-XXXXXX)
 rmdir "$WT"
 git -C /repo worktree add -q --detach "$WT" HEAD || exit 2
@@ -18,7 +20,7 @@ demo() {
     (cd "$D" && timeout 600 go run . >/dev/null 2>&1); rc=$?; rm -rf "$D"; return $rc
   else
     cp "$SRC/demo_test.go" "$WT/interp/zz_seeded_demo_test.go"
-    (cd "$WT" && timeout 900 go test -vet=off -count=1 -run "$RUN" ./interp >/dev/null 2>&1); rc=$?
+    (cd "$WT" && timeout 900 go test $RACE -vet=off -count=1 -run "$RUN" ./interp >/dev/null 2>&1); rc=$?
     rm -f "$WT/interp/zz_seeded_demo_test.go"; return $rc
   fi
 }
